@@ -96,6 +96,7 @@ import Sds.Proofs.GenEqLoad
 import Sds.Proofs.GenEqLoad2
 import Sds.Proofs.GenEqLoad3
 import Sds.Proofs.GenEqLoad4
+import Sds.Proofs.GenEqLoad5
 
 namespace Sds.C06
 open Sds Outcome
@@ -836,5 +837,18 @@ theorem bit_vector_loader_stack_as_translated_from_source (m : Mode) (es : Elems
     (GenEq.BvOk es → GenEq.BvSelOk es → Generated.gen_BitVector_load_full m es = bitVectorC.load es) ∧
     ((∀ w ∈ es, w.toNat < 2 ^ 32) → Generated.gen_BitVector_load_full m es = bitVectorC.load es) :=
   ⟨GenEq.opt_rank_load_eq m es, GenEq.opt_sel_load_eq m es, GenEq.bv_load_full_eq m es, GenEq.bv_load_full_eq_small m es⟩
+
+/-- … and the composite loaders over the FULL bitvector loader: `SparseVector::load`, `WMCore::load` and
+`WaveletMatrix::load` with every inner `T::load` a translated function (`Generated/FnsLoad5.lean`) -/
+theorem composite_loader_stacks_as_translated_from_source (m : Mode) (es : Elems) :
+    (GenEq.SparseFullOk es → Generated.gen_SparseVector_load_full m es = sparseC.load es) ∧
+    (GenEq.WmCoreFullOk es → Generated.gen_WMCore_load_full m es = wmCoreC.load es) ∧
+    (GenEq.WmFull2Ok es → Generated.gen_WaveletMatrix_load_full2 m es = wmC.load es) ∧
+    ((∀ w ∈ es, w.toNat < 2 ^ 32) →
+        Generated.gen_WMCore_load_full m es = wmCoreC.load es ∧ Generated.gen_WaveletMatrix_load_full2 m es = wmC.load es ∧
+        (GenEq.SparseWidthOk es → Generated.gen_SparseVector_load_full m es = sparseC.load es)) :=
+  ⟨GenEq.sparse_load_full_eq m es, GenEq.wm_core_load_full_eq m es, GenEq.wm_load_full2_eq m es,
+   fun h => ⟨GenEq.wm_core_load_full_eq_small m es h, GenEq.wm_load_full2_eq_small m es h,
+     fun hw => GenEq.sparse_load_full_eq_small m es h hw⟩⟩
 
 end Sds.C06
